@@ -3,17 +3,35 @@
    (C05 C06 C07 and the TCP clauses of C13 C20; handler discipline of C04). *)
 EXTENDS Tcp, Json, IOUtils
 TraceLog == ndJsonDeserialize(IOEnv.TRACE)
-VARIABLES l, phase, keeps
-tvars == <<tvars0, l, phase, keeps>>
+VARIABLES l, phase, keeps,
+          rt,   \* the configured routes: latency / bandwidth per address and of the shared network hop (C09)
+          wt    \* first-hop transmission times of the packets still travelling, per (conn, dir, kind, seq), oldest first
+tvars == <<tvars0, l, phase, keeps, rt, wt>>
 Ev == TraceLog[l]
 IsEvent(e) == l <= Len(TraceLog) /\ Ev.e = e /\ l' = l + 1
-Run == phase = "run" /\ UNCHANGED <<phase, keeps>>
+Run0 == phase = "run" /\ UNCHANGED <<phase, keeps, rt>>
+Run == Run0 /\ UNCHANGED wt
+NoRt == [tpk |-> 0, net |-> [lat |-> 0, bw |-> 0], a |-> [x \in {} |-> 0]]
+\* C09, end to end: a packet cannot reach the far socket sooner than the latencies and serialisation times of the
+\* hops of its route add up to (payload bytes only and whole milliseconds of serialisation: a sound lower bound)
+Ser(len, bw) == IF bw = 0 \/ rt.tpk = 0 THEN 0 ELSE ((len * 1000) \div bw) * rt.tpk
+MinDelay(src, dst, len) ==
+    IF src \notin DOMAIN rt.a \/ dst \notin DOMAIN rt.a THEN 0
+    ELSE rt.a[src].ol + Ser(len, rt.a[src].ob) + rt.net.lat + Ser(len, rt.net.bw) + rt.a[dst].il + Ser(len, rt.a[dst].ib)
+WKey == <<Ev.conn, Ev.dir, Ev.kind, Ev.seq>>
+WPush(key, src) == wt' = (key :> Append(IF key \in DOMAIN wt THEN wt[key] ELSE <<>>, <<now, src>>)) @@ wt
+WPop(key) == wt' = IF Len(wt[key]) = 1 THEN [k \in DOMAIN wt \ {key} |-> wt[k]] ELSE [wt EXCEPT ![key] = Tail(@)]
+\* every packet a socket receives was put on the wire at the sender's first hop, and not too recently
+Travelled == /\ WKey \in DOMAIN wt
+             /\ now - Head(wt[WKey])[1] + 1 >= MinDelay(Head(wt[WKey])[2], Ev.hop, Ev.len)
+             /\ WPop(WKey)
 Ep(a) == <<a[1], a[2]>>
 K == <<Ev.conn, Ev.dir>>
 AckK == <<Ev.conn, Other(Ev.dir)>>
 
-TInit == l = 1 /\ phase = "idle" /\ keeps = {} /\ TInit0([a \in {} |-> ""])
+TInit == l = 1 /\ phase = "idle" /\ keeps = {} /\ rt = NoRt /\ wt = <<>> /\ TInit0([a \in {} |-> ""])
 TCfg == /\ IsEvent("Cfg") /\ phase = "idle" /\ phase' = "run" /\ keeps' = {}
+        /\ rt' = (IF "rt" \in DOMAIN Ev THEN Ev.rt ELSE NoRt) /\ wt' = <<>>
         /\ now' = 0 /\ nat' = Ev.nat /\ lst' = [x \in Acceptors |-> FreshLst]
         /\ cn' = [i \in {} |-> 0] /\ st' = [k \in {} |-> 0] /\ sk' = [s \in Socks |-> FreshSk]
 TAdv == IsEvent("Adv") /\ Run /\ Advance(Ev.t)
@@ -24,20 +42,21 @@ TAccept == IsEvent("Accept") /\ Run /\ Accept(Ev.l, Ev.h, Ev.into, Ev.form)
 TConnect == IsEvent("Connect") /\ Run /\ Len(Ev.lep) = 2
             /\ Connect(Ev.c, Ev.conn, Ep(Ev.lep), Ep(Ev.target), Ev.mss)
 
-TWire == /\ IsEvent("Wire") /\ Run /\ Ev.conn \in DOMAIN cn
+TWire == /\ IsEvent("Wire") /\ Run0 /\ WPush(WKey, Ev.hop) /\ Ev.conn \in DOMAIN cn
          /\ CASE Ev.kind = "syn" -> cn[Ev.conn].phase = "syn" /\ Ev.nth = 1 /\ Ep(Ev.from) = cn[Ev.conn].cep
                                      /\ UNCHANGED tvars0
               [] Ev.kind = "syn_ack" -> SynAck(Ev.conn)
               [] Ev.kind = "payload" -> IF Ev.nth = 1 THEN SendSeg(K, Ev.seq, Ev.len) ELSE Resend(K, Ev.seq, Ev.len)
               [] Ev.kind = "error" -> SendEof(K, Ev.seq)
               [] Ev.kind = "ack" -> AckSent(AckK, Ev.seq)
-TArrive == /\ IsEvent("ArriveSock") /\ Run /\ Ev.conn \in DOMAIN cn /\ Ev.same
+TArrive == /\ IsEvent("ArriveSock") /\ Run0 /\ Ev.conn \in DOMAIN cn /\ Ev.same /\ Travelled
            /\ CASE Ev.kind = "syn" -> SynArrive(Ev.conn)
                 [] Ev.kind = "syn_ack" -> SynAckArrive(Ev.conn)
                 [] Ev.kind = "payload" -> ArriveSeg(K, Ev.seq, Ev.len)
                 [] Ev.kind = "error" -> ArriveSeg(K, Ev.seq, 0)
                 [] Ev.kind = "ack" -> AckArrive(AckK, Ev.seq)
-TDrop == IsEvent("Drop") /\ Run /\ DropSeg(K, Ev.seq)
+DKey == <<Ev.conn, Ev.dir, "payload", Ev.seq>>
+TDrop == IsEvent("Drop") /\ Run0 /\ DropSeg(K, Ev.seq) /\ (IF DKey \in DOMAIN wt THEN WPop(DKey) ELSE UNCHANGED wt)
 
 TWrite == IsEvent("Write") /\ Run /\ sk[Ev.s].conn = Ev.conn /\ StartWrite(Ev.s, Ev.h, Ev.size)
 TWriteDone == /\ IsEvent("WriteDone") /\ Run /\ ~Ev.inline
@@ -58,7 +77,7 @@ TCancel == IsEvent("Cancel") /\ Run /\ CancelSock(Ev.s)
 TCancelAcc == IsEvent("CancelAcc") /\ Run /\ CancelAcceptor(Ev.l)
 \* a user handler threw: the exception left run(); nothing further is required of this run
 TThrow == IsEvent("Throw") /\ Run /\ UNCHANGED tvars0
-TEndThrown == /\ IsEvent("EndThrown") /\ phase = "run" /\ phase' = "idle" /\ keeps' = {} /\ UNCHANGED tvars0
+TEndThrown == /\ IsEvent("EndThrown") /\ phase = "run" /\ phase' = "idle" /\ keeps' = {} /\ UNCHANGED <<tvars0, rt, wt>>
 TConnectDone == /\ IsEvent("ConnectDone") /\ Run /\ ~Ev.inline
                 /\ IF Ev.stale \/ Ev.ec = "aborted" THEN UNCHANGED tvars0
                    ELSE IF Ev.ec = "ok" THEN Len(Ev.lep) = 2 /\ Len(Ev.rep) = 2
@@ -69,7 +88,7 @@ TAcceptDone == /\ IsEvent("AcceptDone") /\ Run /\ ~Ev.inline
                   ELSE /\ Ev.ec = "ok" /\ Len(Ev.lep) = 2 /\ Len(Ev.rep) = 2
                        /\ AcceptDone(Ev.l, Ev.h, Ev.into, Ep(Ev.lep), Ep(Ev.rep),
                                      IF Len(Ev.peer) = 2 THEN Ep(Ev.peer) ELSE None, Ev.form)
-TPending == /\ IsEvent("Pending") /\ phase = "run" /\ UNCHANGED phase
+TPending == /\ IsEvent("Pending") /\ phase = "run" /\ UNCHANGED <<phase, rt, wt>>
             /\ keeps' = IF Ev.keeps_reading /\ Ev.reading THEN keeps \cup {Ev.s} ELSE keeps
             /\ UNCHANGED tvars0
 \* run() returned
@@ -81,10 +100,10 @@ ConnectsComplete == \A id \in DOMAIN cn :
 TEnd == /\ IsEvent("End") /\ phase = "run" /\ phase' = "idle" /\ keeps' = {}
         /\ QuiescentOK /\ NothingOwed /\ ConnectsComplete
         /\ \A id \in DOMAIN cn : AllDelivered(id, keeps)
-        /\ UNCHANGED tvars0
+        /\ UNCHANGED <<tvars0, rt, wt>>
 \* run() returned in a run with injected drops: progress is not required, the rest is
 TEndLoose == /\ IsEvent("EndLoose") /\ phase = "run" /\ phase' = "idle" /\ keeps' = {}
-             /\ UNCHANGED tvars0
+             /\ UNCHANGED <<tvars0, rt, wt>>
 Diag == [l |-> l, owed |-> ~NothingOwed, connects |-> ~ConnectsComplete,
          stall |-> [k \in DOMAIN st |->
                       IF Established(k[1]) THEN
@@ -98,10 +117,15 @@ TNext == TBindAcc \/ TCancel \/ TCancelAcc \/ TThrow \/ TEndThrown \/ TEndLoose 
          \/ TPending \/ TEnd
 TSpec == TInit /\ [][TNext]_tvars
 
-RecordProgress == TLCSet(1, IF l <= Len(TraceLog) /\ TraceLog[l].e = "End" THEN Diag ELSE [l |-> l])
+ArrDiag == [l |-> l, wired |-> WKey \in DOMAIN wt,
+            elapsed |-> IF WKey \in DOMAIN wt THEN now - Head(wt[WKey])[1] ELSE 0 - 1,
+            need |-> IF WKey \in DOMAIN wt THEN MinDelay(Head(wt[WKey])[2], Ev.hop, Ev.len) ELSE 0]
+RecordProgress == TLCSet(1, IF l <= Len(TraceLog) /\ TraceLog[l].e = "End" THEN Diag
+                            ELSE IF l <= Len(TraceLog) /\ TraceLog[l].e = "ArriveSock" THEN ArrDiag ELSE [l |-> l])
 TraceAccepted == LET d == TLCGet("stats").diameter - 1 IN
                  /\ PrintT(<<"MATCHED", d, Len(TraceLog), ToJson(TLCGet(1))>>)
                  /\ d = Len(TraceLog)
+LenientOn == TRUE
 TAcceptors == {"l1", "l2"}
 TSocks == {"c1", "c2", "c3", "a1", "a2", "a3"}
 =============================================================================
